@@ -297,7 +297,7 @@ RULE_ADDENDA = {
     "C04": "Request.Fields is also called the way the reference handlers call it, with context keys whose values are present in the request's context. Every input is also decoded into reused receivers (a fully populated value, and the decode of the valid packet the input was derived from): refusal must not depend on the receiver and every decoded field must come from this input.",
     "C05": "One server-side case in three has a session waiting for its continuation (the handler registers one for the first packet) while the rest of the stream and the terminal event arrive. The packet that is cut short varies (clear flag, all three types, announced lengths 1/5/6/20) and one stream in four ends exactly behind a header that announces a body. One stream in four ends in a transport error (connection reset) instead of EOF, at a boundary or inside a packet. After an injected deadline expiry in the middle of a packet the connection must be closed; one that goes back to reading is the verdict stall-not-an-error. Client-side cases may be preceded by one or two clients that were used and then closed twice, and be accompanied by a sibling client on a connection of its own that is used afterwards: each receives its own stream. TestC05EnumOverlap: connection A's handler looks at its (long) request when it starts and again before it returns while a long request is received and handled on connection B: what A was given stays what A's peer wrote.",
     "C11": "Command arguments include values that merely end in the <cr>/<CR> line-ending marker.",
-    "C12": "One request in three is sent on the session id of the request before it with the next client sequence number (the updates of a task), naming any user. Text may contain octets outside US-ASCII, which makes the request undecodable (ERROR expected). One request in four is a near-copy of the one before it (arguments differing only in white space or in where one argument ends and the next begins). The text pool includes literal escape-like sequences (backslash-u003c, backslash-u0026, backslash-n, double backslash). One case in four also registers the syslog accounter on a unixgram socket owned by the harness (users with a SYSLOG accounter become accountable; the record must be queued on the socket when the reply arrives, exactly once, and decode to the request). One case in two uses a log.Logger over the recording sink (what SetLogSinkDefault builds over a file); in one case in three every 2nd or 3rd write of that logger reports an error after the line was taken. One request in five carries the standard attributes with values at the edges. TestC12EnumConcurrent: eight connections send 400 different records each at the same moment; afterwards every acknowledged request has exactly one sink line that decodes to it.",
+    "C12": "One request in three is sent on the session id of the request before it with the next client sequence number (the updates of a task), naming any user. Text may contain octets outside US-ASCII, which makes the request undecodable (ERROR expected). One request in four is a near-copy of the one before it (arguments differing only in white space or in where one argument ends and the next begins). The text pool includes literal escape-like sequences (backslash-u003c, backslash-u0026, backslash-n, double backslash). One case in four also registers the syslog accounter on a unixgram socket owned by the harness (users with a SYSLOG accounter become accountable; the record must be queued on the socket when the reply arrives, exactly once, and decode to the request). One case in two uses a log.Logger over the recording sink (what SetLogSinkDefault builds over a file); in one case in three every 2nd or 3rd write of that logger reports an error after the line was taken. One request in five carries the standard attributes with values at the edges. TestC12EnumConcurrent: eight connections send 1000 different records each at the same moment (the recording sink yields before it renders what it is given); afterwards every acknowledged request has exactly one sink line that decodes to it.",
     "C18": "Half of the cases carry a third secret configuration with a key of its own whose prefix option is unusable; the loader's messages are searched for that key. Every log call is also passed to the reference logger of cmds/server/log at a drawn level (10/20/30/31/100) writing to a buffer, which is searched for the tokens as well. The misconfigured scope's prefix option may also be a list with good entries next to one that does not parse. Keys that the tree under test has beyond the configuration schema the harness models - struct fields found by reflection over config.ServerConfig, option names found as string literals in the sources of cmds/server - are written into two generated documents in three with values of the field's type (on the unchanged tree: the four comment fields). TestC18EnumSlowPassword: the password of an ASCII login (a searchable token) arrives 16.5 s of real time after the prompt (65 s in thorough) while other logins run on the connection. TestC18EnumPipelinedLogin: user name and password of an ASCII login go out in one write, with and without the single-connect flag; the login driver waits up to 150 ms for replies that arrive after the server went back to reading.",
     "C16": "Successor documents include filter lists with an entry the loader cannot parse. Half of the histories collect lazily: a document a fresh loader refuses is fed while the previous configuration is still uncollected on the channel, and that configuration must still be there afterwards. The real-watcher sub-test also replaces the file atomically (rename over the path) and then edits it in place; if nothing is published the verdict is taken from the process' inotify watch list (/proc/self/fdinfo), not from the clock. Keys that the tree under test has beyond the configuration schema the harness models - struct fields found by reflection over config.ServerConfig, option names found as string literals in the sources of cmds/server - are drawn anew for every document of a history, two times in three each, with values of the field's type (on the unchanged tree: the four comment fields). The real-watcher sub-test records the watcher's log: if nothing is published, the watcher's last action was to report a failed reload, it has been silent for three more seconds and a fresh loader accepts the file as it stands, that is the verdict watcher-reload-failed-for-acceptable-file. One history in four loads from a file that is rewritten in place and given its previous modification time back; successor documents include edits that leave the length unchanged (one letter of a name, one digit of a prefix).",
     "C17": "Connections may also end in a read that fails with a connection reset. One scripted packet in three makes its handler register a continuation, so that a session is still open when the connection ends. In one case in four whoever cancels also closes the listener, so the server's own Close of it reports an error. One cancel-in-handler case in six keeps the handler at work for 10 ms after the cancellation; TestC17EnumSlowHandler does so for 2.5 s of real time in quick and 32 s in thorough (Serve returning meanwhile is the verdict; the duration only bounds the patience that can be detected). The scripted connection offers CloseWrite/CloseRead like a TCP connection. Connection scripts may end in a request under the wrong key that has the first octets of the next request behind it in the same read, followed by up to six single octets: if the server goes on reading, the deadline oracle judges how. (The thorough hold of TestC17EnumSlowHandler is 47 s.)",
